@@ -144,6 +144,25 @@ CLAIMS["C13"] = {
 }
 
 # ------------------------------------------------------------------------------------------ C15
+SPEC["C14"] = {
+    "engine": "rust",
+    "bin": "watchmon",
+    "rule": "cases = (project of 4-5 files with valid / unresolvable / unparsable content variants, initial disk, history of 3-25 write|rebuild operations, notification policy): every rebuild of the history is one evaluation "
+            "(the long-lived session's code + emitted diagnostics + bundle_to_diagnostics result compared with a fresh session thread on a copy of the disk). distinct_nontrivial = distinct histories as sequences of (file role, content class) operations",
+    "floor": {"quick": 200000, "thorough": 10000000},
+    "workload_exclusions": [
+        "file deletions and renames (the property quantifies over updates and rebuilds; chokidar's change listener is not told about unlink)",
+        "the TypeScript host's own caches in bundler.ts (resolvedCache keeps successful resolutions, fsCache keeps source text for rendering): the native host of the beff_verif feature answers from the virtual disk every time; without deletions a successful resolution never changes",
+        "changes of settings between rebuilds",
+    ],
+}
+CLAIMS["C14"] = {
+    "technique": "history monitor over the real long-lived session (thread-local BUNDLER reached through the beff_verif native host): write/rebuild histories with a from-scratch oracle (fresh thread = fresh session) after every rebuild; differing rebuilds are attributed by re-execution and delta-debugged",
+    "text": "For every generated history the same beff-wasm entry points the watch loop uses (update_file_content, bundle_to_string, bundle_to_diagnostics, emit_diagnostic) are driven on one session thread over a virtual disk. "
+            "Writes are reported to the session the way commandeer.ts does (only for files the session has read; a second policy reports every write). After EVERY rebuild the session's code, emitted diagnostics and diagnostics result must equal "
+            "those of a brand-new session on the current disk. A differing rebuild is attributed (`as-if[f: old->new]`: the session answers exactly like a fresh session on a disk where f still has its earlier content) and shrunk while the attribution stays the same.",
+    "note": "Diagnostics of one build are compared as multisets. The JavaScript half of the watch loop (chokidar, fs) is modelled by the notification policy, not executed.",
+}
 SPEC["C15"] = {
     "engine": "node",
     "rule": "cases = parsers of generated programs: describe() text is compiled again by the real compiler (text + buildParsers<{X: Codec<name>}>) and the second-generation validator is compared with the "
